@@ -37,7 +37,7 @@ for f in sorted(glob.glob('/verif/evidence/C*.json')):
     for k,v in c.items():
         if k in ('evaluations','distinct_nontrivial','distinct_outcomes','exhaustive','rule','samples','known_findings_hit','not_exhaustive_reasons'): continue
         if isinstance(v,(int,float)) and not isinstance(v,bool): extra.append(f'{k}={v}')
-    meas+=f"| {e['property_id']} | {e.get('tier','')} | {c.get('evaluations')} | {c.get('distinct_nontrivial')} | {len(e.get('violations',[]))} | {c.get('exhaustive')} | {e.get('wall_s','')} | {', '.join(extra[:8])} |\n"
+    meas+=f"| {e['property_id']} | {e.get('tier','')} | {c.get('evaluations')} | {c.get('distinct_nontrivial')} | {(e.get('violations') if isinstance(e.get('violations'),int) else len(e.get('violations',[])))} | {c.get('exhaustive')} | {e.get('wall_s','')} | {', '.join(extra[:8])} |\n"
 if '<!-- MEASURED BEGIN -->' in d:
     d=put(d,'MEASURED',meas)
 d=put(d,'FIXTABLE',fixtab)
